@@ -26,7 +26,8 @@ Inductive c19_case : Type :=
 | CSet (cfg rec : nat) (code : Z) (v : Z * string) (ok : bool) (after : patch) (gets : list (Z * option (Z * string)))
 | CProp (cfg rec : nat) (code : Z) (v : Z * string) (ok : bool) (after : patch)
 | CMsg (cfg rec : nat) (allowed : bool) (new : patch) (ok : bool) (after : patch)
-| CGen (cfg : nat) (new : patch) (ok : bool).
+| CGen (cfg : nat) (new : patch) (ok : bool)
+| CGenApp (cfg : nat) (new : patch) (ok : bool) (after : patch).   (* genesis through InitChain *)
 
 Section Run.
 Variable cfgs : list props.
@@ -56,6 +57,10 @@ Definition case_matches (c : c19_case) : bool :=
         result_matches ps (msg_set_all allowed (recs_at rec) ps (apply_patch ps new)) ok (apply_patch ps after) end
   | CGen cfg new ok =>
       match cfg_at cfg with None => false | Some ps => Bool.eqb (validate (apply_patch ps new)) ok end
+  | CGenApp cfg new ok after =>
+      match cfg_at cfg with None => false | Some ps =>
+        (Bool.eqb (validate (apply_patch ps new)) ok
+         && (negb ok || props_eqb (apply_patch ps new) (apply_patch ps after)))%bool end
   end.
 
 Fixpoint mismatches_from (n : nat) (cs : list c19_case) : list nat :=
@@ -156,6 +161,11 @@ Definition case_clauses (c : c19_case) : list string :=
   | CGen cfg new ok =>
       match cfg_at cfg with None => ["cfg"%string] | Some ps =>
         if ok then (if valid_specb (apply_patch ps new) then [] else ["valid"%string]) else [] end
+  | CGenApp cfg new ok after =>
+      match cfg_at cfg with None => ["cfg"%string] | Some ps =>
+        if ok then (if valid_specb (apply_patch ps after) then [] else ["valid"%string]) ++
+                   (if props_eqb (apply_patch ps new) (apply_patch ps after) then [] else ["readback"%string])
+        else [] end
   end.
 
 Fixpoint violations_from (n : nat) (cs : list c19_case) : list (nat * list string) :=
